@@ -8,9 +8,11 @@ import (
 	"testing"
 	"unicode/utf8"
 
+	"github.com/vektah/gqlparser/v2"
 	"github.com/vektah/gqlparser/v2/ast"
 	"github.com/vektah/gqlparser/v2/gqlerror"
 	"github.com/vektah/gqlparser/v2/parser"
+	"github.com/vektah/gqlparser/v2/validator"
 	"pgregory.net/rapid"
 
 	"verif/harness/gen"
@@ -353,6 +355,14 @@ func TestC04(t *testing.T) {
 	for _, c := range []string{"doc", "multi", "mutant", "soup", "corpus"} {
 		kit.RegisterReplayer("C04", c, c04Replay)
 	}
+	errReplay := func(raw json.RawMessage) string {
+		var c c04ErrCase
+		_ = json.Unmarshal(raw, &c)
+		v, _ := c04ErrEval(c)
+		return v
+	}
+	kit.RegisterReplayer("C04", "loaderror", errReplay)
+	kit.RegisterReplayer("C04", "validationerror", errReplay)
 	if r.ReplayIfRequested() {
 		return
 	}
@@ -459,6 +469,60 @@ func TestC04(t *testing.T) {
 		}
 	})
 
+	r.Rapid("loaderror", kit.Pick(1500, 60000), func(rt *rapid.T) {
+		st := gen.TypedSchema().Draw(rt, "schema")
+		if _, ok := gen.ApplySchemaFault(rt, &st, rapid.IntRange(0, gen.NumSchemaFaults()-1).Draw(rt, "fault")); !ok {
+			rt.Skip("no target")
+		}
+		pieces := gen.SchemaPieces(st, gen.Rand(rt))
+		ns := rapid.IntRange(1, 3).Draw(rt, "nsources")
+		c := c04ErrCase{}
+		for i := 0; i < ns; i++ {
+			c.Sources = append(c.Sources, c04Source{Name: fmt.Sprintf("f%d", i)})
+		}
+		all := ""
+		for _, p := range pieces {
+			i := rapid.IntRange(0, ns-1).Draw(rt, "src")
+			c.Sources[i].Input += gen.JoinRandom(rt, p, true) + rapid.SampledFrom([]string{"\n", "\r\n", "\r", " "}).Draw(rt, "sep")
+		}
+		for _, s := range c.Sources {
+			all += s.Input + "\x00"
+		}
+		r.Begin("loaderror", func() interface{} { return c })
+		defer r.End()
+		v, n := c04ErrEval(c)
+		r.Case(n > 0 && c04Interesting(all), all)
+		r.ClassN("load-error-locations-checked", int64(n))
+		if v != "" {
+			r.Failf(rt, "loaderror", c, "%s", v)
+		}
+	})
+
+	r.Rapid("validationerror", kit.Pick(1500, 60000), func(rt *rapid.T) {
+		g, ok := genValidationCase(rt, rapid.IntRange(1, 2).Draw(rt, "class"))
+		if !ok {
+			rt.Skip("no case")
+		}
+		var lex []string
+		if g.Typed != nil {
+			lex = gen.QueryLexemes(g.Typed.Doc, gen.Rand(rt))
+			if rapid.Bool().Draw(rt, "misspell") {
+				lex = misspell(rt, lex)
+			}
+		} else {
+			lex = strings.Fields(g.Case.Query)
+		}
+		c := c04ErrCase{Sources: []c04Source{{"schema.graphql", g.Case.Schema}}, Query: gen.JoinRandom(rt, lex, true), QName: rapid.SampledFrom([]string{"", "q.graphql"}).Draw(rt, "qname")}
+		r.Begin("validationerror", func() interface{} { return c })
+		defer r.End()
+		v, n := c04ErrEval(c)
+		r.Case(n > 0 && c04Interesting(c.Query), c.Query)
+		r.ClassN("validation-error-locations-checked", int64(n))
+		if v != "" {
+			r.Failf(rt, "validationerror", c, "%s", v)
+		}
+	})
+
 	r.Rapid("soup", kit.Pick(10000, 200000), func(rt *rapid.T) {
 		text := gen.Soup(true).Draw(rt, "input")
 		c := c04Case{Sources: []c04Source{{"f0", text}}, Schema: rapid.Bool().Draw(rt, "schema")}
@@ -471,6 +535,57 @@ func TestC04(t *testing.T) {
 			r.Failf(rt, "soup", c, "%s", v)
 		}
 	})
+}
+
+// c04ErrCase: locations of schema-load and validation errors.
+type c04ErrCase struct {
+	Sources []c04Source `json:"sources"` // schema sources
+	Query   string      `json:"query,omitempty"`
+	QName   string      `json:"qname,omitempty"`
+}
+
+func c04ErrEval(c c04ErrCase) (viol string, n int) {
+	byName := map[string]*srcIndex{}
+	var srcs []*ast.Source
+	for _, s := range c.Sources {
+		srcs = append(srcs, &ast.Source{Name: s.Name, Input: s.Input})
+		byName[s.Name] = indexSource(s.Input)
+	}
+	var schema *ast.Schema
+	var err error
+	if p := kit.Safely(func() { schema, err = gqlparser.LoadSchema(srcs...) }); p != nil {
+		return "", 0
+	}
+	if err != nil {
+		ge, ok := err.(*gqlerror.Error)
+		if !ok || len(ge.Locations) == 0 {
+			return "", 0 // shape of errors is C20's subject
+		}
+		if f, _ := ge.Extensions["file"].(string); f == "prelude.graphql" {
+			return "", 0
+		}
+		return checkErrorLocation(ge, byName), len(ge.Locations)
+	}
+	if c.Query == "" {
+		return "", 0
+	}
+	qix := indexSource(c.Query)
+	qByName := map[string]*srcIndex{c.QName: qix}
+	d, perr := parser.ParseQuery(&ast.Source{Name: c.QName, Input: c.Query})
+	if perr != nil {
+		return "", 0
+	}
+	var errs gqlerror.List
+	if p := kit.Safely(func() { errs = validator.Validate(schema, d) }); p != nil {
+		return "", 0
+	}
+	for _, e := range errs {
+		n += len(e.Locations)
+		if v := checkErrorLocation(e, qByName); v != "" {
+			return "[" + e.Rule + "] " + v, n
+		}
+	}
+	return "", n
 }
 
 var c04Corpus = []string{
